@@ -97,11 +97,37 @@ func c27Close(a, b float64) bool {
 	return math.Abs(a-b) <= 1e-9*math.Max(1, math.Max(math.Abs(a), math.Abs(b)))
 }
 
+// c27CloseTol: |a-b| <= rel*max(1,|b|) + abs, b being the reference.
+func c27CloseTol(a, b, rel, abs float64) bool {
+	if math.IsNaN(a) || math.IsNaN(b) {
+		return math.IsNaN(a) && math.IsNaN(b)
+	}
+	if a == b {
+		return true
+	}
+	if math.IsInf(a, 0) || math.IsInf(b, 0) {
+		return false
+	}
+	return math.Abs(a-b) <= rel*math.Max(1, math.Abs(b))+abs
+}
+
+// c27RelTol: 1e-9 on the ordinary data sets; on large-offset data (values 1e9..4e12 with a
+// spread of a few units, time()) a tolerance relative to the value magnitude would hide every
+// error of a difference-of-values operator, so it is 1e-13 there (a few hundred ulps: summation
+// order of <= 18 inexact terms, quantile interpolation) and the variance family carries its own
+// absolute tolerance computed by the reference from the inputs of each point.
+func c27RelTol(c c27Case, sp c27DataSpec) float64 {
+	if c.big || sp.Big != 0 {
+		return 1e-13
+	}
+	return 1e-9
+}
+
 func c27Fmt(v float64) string {
 	if math.IsNaN(v) {
 		return "NaN"
 	}
-	return fmt.Sprintf("%.10g", v)
+	return fmt.Sprintf("%.17g", v)
 }
 
 // ---------------------------------------------------------------------------------
@@ -196,7 +222,11 @@ func c27JudgeDef(c c27Case, st *c27Store, sp c27DataSpec, eng c27EngResult) (mm 
 			if es != nil {
 				got = es.vals[i]
 			}
-			if !c27Close(got, want) {
+			var absTol float64
+			if rs.tol != nil {
+				absTol = rs.tol[off+i]
+			}
+			if !c27CloseTol(got, want, c27RelTol(c, sp), absTol) {
 				class := "value"
 				if es == nil {
 					// a series that is absent altogether: explained by missing members only if
@@ -424,6 +454,9 @@ func c27Spec(rnd interface{ IntN(int) int }, i int) c27DataSpec {
 	sp.GapP = []float64{0.1, 0.25, 0.4, 0}[rnd.IntN(4)]
 	sp.UnsetJ = rnd.IntN(3) == 0
 	sp.EqualCnt = rnd.IntN(8) == 0
+	if i%4 == 3 {
+		sp.Big = []float64{1e9, 1.7e9, 1e12, -1e9, -4e12, 8589934592, 3e10}[(i/4)%7]
+	}
 	return sp
 }
 
@@ -446,9 +479,11 @@ func TestVerifC27(t *testing.T) {
 			rnd := r.Rand(fmt.Sprintf("data/%d", di))
 			sp := c27Spec(rnd, di)
 			st := c27GenStore(rnd, sp)
-			g := &c27Gen{rnd: rnd, step: sp.Step}
+			g := &c27Gen{rnd: rnd, step: sp.Step, big: sp.Big != 0}
 			for ci := 0; ci < perData; ci++ {
-				if ci%2 == 0 {
+				if ci%2 == 0 || sp.Big != 0 {
+					// large-offset data sets: definitions only (the reduction comparison is
+					// between two engine evaluations and gains nothing from the magnitude)
 					c27DoDef(r, w, st, sp, g.defCase(), di)
 				} else {
 					c27DoRed(r, w, st, sp, g.redCase(), di)
